@@ -13,3 +13,4 @@ import Props.C20
 import Props.C16
 import Props.C11
 import Props.C12
+import Props.C05
